@@ -67,13 +67,19 @@ def run(tier):
             cases.append(mk_case(cid, steps, {"gc": "default", "trace": 1, "dropcheck": 1}, mods,
                                  globals_=[("N", f64_bits(n * mult))]))
     ck.log("%d programs x {n, 2n} iterations" % len(progs))
-    results = common.run_batch("hookfast", cases, timeout=1500, case_timeout=240)
+    results = common.run_batch("hookfast", cases, timeout=1500 if quick else 6000, case_timeout=240 if quick else 900)
     by = {}
     for case, res in zip(cases, results):
         cid = case["id"]
         body, keep, n, src = meta[cid]
         ck.evaluations += 1
         rp = {"body": body, "keep": keep, "N": n, "source": src}
+        if "abort" in res and res["abort"].get("why") == "timeout":
+            # a watchdog is no verdict on this property (false alarm of the thorough tier on a machine with a load of 100:
+            # a 240 000-iteration program exceeded its allowance even in its isolated re-run); whether programs
+            # terminate is C02's matter
+            ck.inconclusive.append("churn program %s (N=%d) hit the watchdog" % (body, n))
+            continue
         if "abort" in res or common.panics_of(res):
             ck.violation("ChurnRunDied", dict(rp, what=str(res.get("abort") or common.panics_of(res))[:2000]))
             continue
